@@ -343,6 +343,38 @@ func runC19(r *fw.Runner) {
 			e.feedBytes(c, "did-with-"+typeName(typ)+"-as-initial-state", []byte(did))
 		}
 	})
+	// ---- well-formed, hash-bound operations of every labelled failure class (e.g. a create whose patches are valid but cannot be
+	// applied, so that no document results), as request and as the initial state of a long-form DID: through every entry point
+	for _, typ := range []byte("curd") {
+		typ := typ
+		for _, fc := range classesFor(typ) {
+			fc := fc
+			r.Case("failure-class-"+typeName(typ), func(c *fw.Case) {
+				e := get(c)
+				for _, st := range []*sut.Stack{e.loose, e.strict} {
+					h := &histCtx{r: c.Rng, proto: st.P, code: 18, keyType: gen.Ed25519, hasIETF: true}
+					cs := planStep(h, 'c', "valid", 10, nil, nil)
+					s := cs
+					if typ == 'c' {
+						h.ch = nil
+						s = planStep(h, 'c', fc.name, 10, nil, nil)
+					} else {
+						s = planStep(h, typ, fc.name, 20, nil, nil)
+					}
+					if len(s.Built.Request) > 1<<16 {
+						continue
+					}
+					c.Sig("failure-class", typ, fc.name)
+					c.Count("failure-class-operations", 1)
+					e.feedBytes(c, "class:"+fc.name, s.Built.Request)
+					did := "did:ion:" + s.Built.Suffix + ":" + oracle.B64(s.Built.Request)
+					e.feedBytes(c, "did-with-class:"+fc.name, []byte(did))
+					c19Call(c, "Applier.Apply", "class:"+fc.name, s.Built.Request, func() { st.Applier.Apply(anchoredOf(s, s.Built.Suffix), e.state) })
+					c19Call(c, "Applier.Apply", "class:"+fc.name, s.Built.Request, func() { st.Applier.Apply(anchoredOf(s, s.Built.Suffix), &protocol.ResolutionModel{}) })
+				}
+			})
+		}
+	}
 	// ---- (a) structure-aware corruption
 	kinds := []string{"create", "update", "recover", "deactivate", "signed-payload", "jws-header", "jwk", "patch", "document", "did-initial-state", "delta-resigned"}
 	for _, kind := range kinds {
